@@ -289,3 +289,301 @@ pub fn v3_limit_probe(ctx: &Ctx, rep: &mut Report) {
     }
     rep.evaluations += 1;
 }
+
+// ---------------------------------------------------------------------------
+// C04 beyond what fits in a byte vector: a version 4 file laid out by "another
+// implementation" whose FAT needs DIFAT sectors with more than 127 entries in use (a
+// version 4 DIFAT sector holds 1023).  Built sector by sector on the sparse store; nothing
+// of it comes from the crate.
+
+fn put32(v: &mut [u8], off: usize, x: u32) {
+    v[off..off + 4].copy_from_slice(&x.to_le_bytes());
+}
+fn put16(v: &mut [u8], off: usize, x: u16) {
+    v[off..off + 2].copy_from_slice(&x.to_le_bytes());
+}
+fn put64(v: &mut [u8], off: usize, x: u64) {
+    v[off..off + 8].copy_from_slice(&x.to_le_bytes());
+}
+
+pub const SPARSE_FOREIGN_CASE: u64 = HUGE_CASE + 2;
+
+struct ForeignV4 {
+    shared: SparseShared,
+    big_len: u64,
+    big_marks: Vec<(u64, Vec<u8>)>,
+    tail: Vec<u8>,
+    inner: Vec<u8>,
+    nfat: usize,
+    difat_sectors: usize,
+    total_sectors: u64,
+}
+
+fn build_foreign_v4(nfat: usize, rng: &mut Rng) -> ForeignV4 {
+    const SL: usize = 4096;
+    const FREE: u32 = 0xFFFF_FFFF;
+    const END: u32 = 0xFFFF_FFFE;
+    const FATSECT: u32 = 0xFFFF_FFFD;
+    const DIFSECT: u32 = 0xFFFF_FFFC;
+    let per_fat = SL / 4;
+    let t = nfat * per_fat; // every FAT entry stands for a sector of the file
+    let difat_sectors = (nfat - 109 + per_fat - 2) / (per_fat - 1);
+    let difat_ids: Vec<u32> = (0..difat_sectors as u32).map(|k| 1 + k).collect();
+    assert!(difat_sectors <= 2);
+    let dir_ids = [3u32, t as u32 - 1];
+    let fat_ids: Vec<u32> = (0..nfat as u32).map(|i| 10 + 3 * i).collect();
+    let inner_ids = [5u32, 4];
+    let tail_ids = [t as u32 - 2, t as u32 - 4, t as u32 - 3];
+    let free_ids = [0u32, 6, 7, 8, 9];
+    let mut fat: Vec<u32> = vec![0; t];
+    let mut taken = vec![false; t];
+    for &f in &fat_ids {
+        fat[f as usize] = FATSECT;
+        taken[f as usize] = true;
+    }
+    for &d in &difat_ids {
+        fat[d as usize] = DIFSECT;
+        taken[d as usize] = true;
+    }
+    for &f in &free_ids {
+        fat[f as usize] = FREE;
+        taken[f as usize] = true;
+    }
+    let link = |fat: &mut Vec<u32>, taken: &mut Vec<bool>, chain: &[u32]| {
+        for w in 0..chain.len() {
+            fat[chain[w] as usize] = if w + 1 < chain.len() { chain[w + 1] } else { END };
+            taken[chain[w] as usize] = true;
+        }
+    };
+    link(&mut fat, &mut taken, &dir_ids);
+    link(&mut fat, &mut taken, &inner_ids);
+    link(&mut fat, &mut taken, &tail_ids);
+    let big_ids: Vec<u32> = (0..t as u32).filter(|&i| !taken[i as usize]).collect();
+    for w in 0..big_ids.len() {
+        fat[big_ids[w] as usize] = if w + 1 < big_ids.len() { big_ids[w + 1] } else { END };
+    }
+    let big_len = big_ids.len() as u64 * SL as u64 - 123;
+    let tail = payload(71, 2 * SL + 1000);
+    let inner = payload(72, 5000);
+    let (file, shared) = SparseFile::new();
+    let mut file = file;
+    let mut put = |id: u32, data: &[u8]| {
+        file.seek(SeekFrom::Start((id as u64 + 1) * SL as u64)).unwrap();
+        file.write_all(data).unwrap();
+    };
+    // the last sector first, so that the store has its full length
+    let mut sec = vec![0u8; SL];
+    // directory: entries 0..5 in the first sector, the second sector all unused
+    let blank_dir = |sec: &mut Vec<u8>| {
+        for b in sec.iter_mut() {
+            *b = 0;
+        }
+        for s in 0..SL / 128 {
+            put32(sec, 128 * s + 68, FREE);
+            put32(sec, 128 * s + 72, FREE);
+            put32(sec, 128 * s + 76, FREE);
+        }
+    };
+    blank_dir(&mut sec);
+    put(dir_ids[1], &sec);
+    blank_dir(&mut sec);
+    // (slot, name, type, red, left, right, child, start, size)
+    let ents: [(usize, &str, u8, bool, u32, u32, u32, u32, u64); 5] = [
+        (0, "Root Entry", 5, false, FREE, FREE, 1, END, 0),
+        (1, "big", 2, false, 2, 3, FREE, big_ids[0], big_len),
+        (2, "st", 1, true, FREE, FREE, 4, 0, 0),
+        (3, "tail", 2, true, FREE, FREE, FREE, tail_ids[0], tail.len() as u64),
+        (4, "inner", 2, false, FREE, FREE, FREE, inner_ids[0], inner.len() as u64),
+    ];
+    for (slot, name, ty, red, l, r, c, start, size) in ents {
+        let base = 128 * slot;
+        let units: Vec<u16> = name.encode_utf16().collect();
+        for (i, u) in units.iter().enumerate() {
+            put16(&mut sec, base + 2 * i, *u);
+        }
+        put16(&mut sec, base + 64, ((units.len() + 1) * 2) as u16);
+        sec[base + 66] = ty;
+        sec[base + 67] = if red { 0 } else { 1 };
+        put32(&mut sec, base + 68, l);
+        put32(&mut sec, base + 72, r);
+        put32(&mut sec, base + 76, c);
+        put32(&mut sec, base + 116, start);
+        put64(&mut sec, base + 120, size);
+    }
+    put(dir_ids[0], &sec);
+    // FAT sectors
+    for (k, &f) in fat_ids.iter().enumerate() {
+        for i in 0..per_fat {
+            put32(&mut sec, 4 * i, fat[k * per_fat + i]);
+        }
+        put(f, &sec);
+    }
+    // DIFAT sectors
+    for (k, &d) in difat_ids.iter().enumerate() {
+        for i in 0..per_fat - 1 {
+            let fi = 109 + k * (per_fat - 1) + i;
+            put32(&mut sec, 4 * i, if fi < nfat { fat_ids[fi] } else { FREE });
+        }
+        put32(&mut sec, SL - 4, if k + 1 < difat_ids.len() { difat_ids[k + 1] } else { END });
+        put(d, &sec);
+    }
+    // stream data
+    let mut put_stream = |ids: &[u32], data: &[u8]| {
+        for (k, &s) in ids.iter().enumerate() {
+            let lo = k * SL;
+            let hi = ((k + 1) * SL).min(data.len());
+            let mut sec = vec![0x5Eu8; SL]; // the rest of a final sector is not zero
+            sec[..hi - lo].copy_from_slice(&data[lo..hi]);
+            put(s, &sec);
+        }
+    };
+    put_stream(&inner_ids, &inner);
+    put_stream(&tail_ids, &tail);
+    let mut big_marks: Vec<(u64, Vec<u8>)> = Vec::new();
+    let n = big_ids.len() as u64;
+    for (j, k) in [0u64, 1, n / 3, n / 2 + rng.below(1000), n - 2].iter().enumerate() {
+        // one whole sector of the big stream
+        let data = payload(80 + j as u64, SL);
+        put(big_ids[*k as usize], &data);
+        big_marks.push((*k * SL as u64, data));
+    }
+    // header
+    let mut h = vec![0u8; SL];
+    h[..8].copy_from_slice(&[0xD0, 0xCF, 0x11, 0xE0, 0xA1, 0xB1, 0x1A, 0xE1]);
+    put16(&mut h, 24, 0x3E);
+    put16(&mut h, 26, 4);
+    put16(&mut h, 28, 0xFFFE);
+    put16(&mut h, 30, 12);
+    put16(&mut h, 32, 6);
+    put32(&mut h, 40, dir_ids.len() as u32);
+    put32(&mut h, 44, nfat as u32);
+    put32(&mut h, 48, dir_ids[0]);
+    put32(&mut h, 56, 4096);
+    put32(&mut h, 60, END);
+    put32(&mut h, 64, 0);
+    put32(&mut h, 68, difat_ids[0]);
+    put32(&mut h, 72, difat_ids.len() as u32);
+    for i in 0..109 {
+        put32(&mut h, 76 + 4 * i, fat_ids[i]);
+    }
+    file.seek(SeekFrom::Start(0)).unwrap();
+    file.write_all(&h).unwrap();
+    ForeignV4 { shared, big_len, big_marks, tail, inner, nfat, difat_sectors, total_sectors: t as u64 }
+}
+
+/// Runs on two shards of C04 (variant 0: 300 FAT sectors, one DIFAT sector with 191
+/// entries in use; variant 1: 1140 FAT sectors, 4.8 GB, two DIFAT sectors).
+pub fn maybe_run_sparse_foreign(ctx: &Ctx, rep: &mut Report, first_shard: u64) -> bool {
+    let mine = ctx.shard >= first_shard && ctx.shard < first_shard + 2;
+    match ctx.only_case {
+        Some(c) if c == SPARSE_FOREIGN_CASE => {
+            if mine {
+                sparse_foreign_v4(ctx, rep, ctx.shard - first_shard);
+                rep.evaluations += 1;
+            }
+            true
+        }
+        Some(_) => false,
+        None => {
+            if mine {
+                crate::guard::case_begin(SPARSE_FOREIGN_CASE);
+                sparse_foreign_v4(ctx, rep, ctx.shard - first_shard);
+                rep.evaluations += 1;
+            }
+            false
+        }
+    }
+}
+
+pub fn sparse_foreign_v4(ctx: &Ctx, rep: &mut Report, variant: u64) {
+    let mut rng = Rng::derive(ctx.seed, &[0x4817, variant]);
+    let nfat = if variant == 0 { 237 + rng.below(200) as usize } else { 1133 + rng.below(20) as usize };
+    let t0 = std::time::Instant::now();
+    let mut facts: Vec<(&str, J)> = vec![("scenario", J::s("version 4 file in a foreign layout with DIFAT sectors, built on a sparse store")), ("fat_sectors", J::Int(nfat as i128))];
+    let res = guard::catch(|| -> Result<(), Fail> {
+        let img = build_foreign_v4(nfat, &mut rng);
+        rep.max("sparse_foreign.file_bytes", img.shared.len());
+        rep.max("sparse_foreign.fat_sectors", img.nfat as u64);
+        rep.max("sparse_foreign.difat_sectors", img.difat_sectors as u64);
+        let verify = |cf: &mut CompoundFile<SparseFile>, when: &str, extra: &[(&str, &[u8])]| -> Result<(), Fail> {
+            let mut listed: Vec<(String, u64)> = cf.walk().map(|e| (e.path().to_string_lossy().into_owned(), e.len())).filter(|x| x.0 != "/").collect();
+            listed.sort();
+            let mut want = vec![("/big".to_string(), img.big_len), ("/st".to_string(), 0), ("/st/inner".to_string(), img.inner.len() as u64), ("/tail".to_string(), img.tail.len() as u64)];
+            for (p, d) in extra {
+                want.push((p.to_string(), d.len() as u64));
+            }
+            want.sort();
+            if listed != want {
+                return Err(("sparse foreign v4 | listing differs".to_string(), format!("{when}: {:?}, expected {:?}", listed, want)));
+            }
+            check_small(cf, "/tail", &img.tail, when, "sparse foreign v4")?;
+            check_small(cf, "/st/inner", &img.inner, when, "sparse foreign v4")?;
+            for (p, d) in extra {
+                check_small(cf, p, d, when, "sparse foreign v4")?;
+            }
+            let mut big = cf.open_stream("/big").map_err(|e| ("sparse foreign v4 | big stream unreadable".to_string(), format!("{when}: {e}")))?;
+            for (off, data) in &img.big_marks {
+                let lo = off.saturating_sub(10);
+                let got = read_at(&mut big, lo, data.len() + 20).map_err(|e| ("sparse foreign v4 | big stream unreadable".to_string(), format!("{when}: read at {lo}: {e}")))?;
+                let mut want = vec![0u8; data.len() + 20];
+                // neighbours: zero unless they are marks themselves (marks 0 and 1 touch)
+                for (o2, d2) in &img.big_marks {
+                    for (i, b) in d2.iter().enumerate() {
+                        let pos = o2 + i as u64;
+                        if pos >= lo && pos < lo + want.len() as u64 {
+                            want[(pos - lo) as usize] = *b;
+                        }
+                    }
+                }
+                want.truncate((img.big_len - lo).min(want.len() as u64) as usize);
+                if got != want {
+                    return Err(("sparse foreign v4 | wrong bytes in the big stream".to_string(), format!("{when}: {} bytes at offset {lo}: first difference at {:?}", want.len(), got.iter().zip(want.iter()).position(|(a, b)| a != b))));
+                }
+            }
+            let got = read_at(&mut big, img.big_len - 50, 100).map_err(|e| ("sparse foreign v4 | big stream unreadable".to_string(), format!("{when}: tail: {e}")))?;
+            if got.len() != 50 {
+                return Err(("sparse foreign v4 | big stream ends elsewhere".to_string(), format!("{when}: {} bytes readable from 50 before the end", got.len())));
+            }
+            Ok(())
+        };
+        for strict in [true, false] {
+            let mut o = OpenOptions::new();
+            if strict {
+                o = o.strict();
+            }
+            let mut cf = o.open_with(img.shared.handle()).map_err(|e| (format!("open {} | rejected a valid layout", if strict { "Strict" } else { "Permissive" }), format!("sparse foreign v4 with {} FAT sectors: {e}", img.nfat)))?;
+            verify(&mut cf, if strict { "opened strict" } else { "opened permissive" }, &[])?;
+            rep.count("sparse_foreign.opens_checked");
+        }
+        // modifiable: the free sectors are taken first, then the file grows by a FAT sector
+        let mut cf = OpenOptions::new().open_with(img.shared.handle()).map_err(|e| ("sparse foreign v4 | open_rw failed".to_string(), format!("{e}")))?;
+        let new_a = payload(90, 20_000);
+        let new_b = payload(91, 30_000);
+        let before = img.shared.len();
+        for (p, d) in [("/new_a", &new_a), ("/st/new_b", &new_b)] {
+            let mut s = cf.create_stream(p).map_err(|e| ("sparse foreign v4 | create_stream failed".to_string(), format!("{p}: {e}")))?;
+            s.write_all(d).and_then(|_| s.flush()).map_err(|e| ("sparse foreign v4 | write failed".to_string(), format!("{p}: {e}")))?;
+            if p == "/new_a" && img.shared.len() != before {
+                return Err(("sparse foreign v4 | free sectors not used".to_string(), format!("file grew from {before} to {} for 5 sectors of data with 5 sectors free", img.shared.len())));
+            }
+        }
+        cf.flush().map_err(|e| ("sparse foreign v4 | flush failed".to_string(), format!("{e}")))?;
+        verify(&mut cf, "after adding streams", &[("/new_a", &new_a), ("/st/new_b", &new_b)])?;
+        drop(cf);
+        let mut cf = OpenOptions::new().strict().open_with(img.shared.handle()).map_err(|e| ("sparse foreign v4 | modified file does not reopen".to_string(), format!("{e}")))?;
+        verify(&mut cf, "reopened after adding streams", &[("/new_a", &new_a), ("/st/new_b", &new_b)])?;
+        rep.count("sparse_foreign.modified_and_reopened");
+        let _ = img.total_sectors;
+        Ok(())
+    });
+    rep.count("sparse_foreign.scenarios");
+    rep.max("sparse_foreign.max_wall_ms", t0.elapsed().as_millis() as u64);
+    facts.push(("variant", J::Int(variant as i128)));
+    let witness = ctx.witness(SPARSE_FOREIGN_CASE, facts);
+    match res {
+        Ok(Ok(())) => rep.count("sparse_foreign.scenarios_passed"),
+        Ok(Err((sig, detail))) => rep.finding(sig, detail, witness),
+        Err(p) => rep.finding(p.signature(), format!("sparse foreign v4: panic at {}:{}: {}", p.file, p.line, p.message), witness),
+    }
+    rep.nontrivial(0x4817_0000 ^ variant ^ nfat as u64);
+}
